@@ -61,7 +61,8 @@ def disconnect_contract(world, target):
                Case('requested.handler-raises', kind='raise', exc='Exception', post=lambda c: {})],
         loops={0: LoopSpec(inv, mod_state=[OUT, ('g', 'raw')])},
         modifies=[OUT, ('g', 'raw'), NSS, CONN, CBS, NEXT, BINP, SID, DISP, CALLS, TASKS, RTASK, EIO_STATE], props=['C08'],
-        must_fail=lambda c: {'requested:claims-nothing-sent': sv_equiv(c.post.get(*OUT), c.pre.get(*OUT))})
+        must_fail=lambda c: {'requested:claims-nothing-sent': sv_equiv(c.post.get(*OUT), c.pre.get(*OUT))},
+        thin=True)      # the clauses speak about the calls the body makes: callers execute the body
 
 
 def shutdown_contract(world, target, disconnect_suffix, join_may_raise):
